@@ -17,6 +17,7 @@ Core Lean only.
 import OccaModel.CInt
 import OccaModel.Loop
 import OccaModel.Dim
+import OccaGen.LoopTables
 
 namespace Occa.LoopExpr
 open Occa Occa.Loop
@@ -263,13 +264,13 @@ def forText (l : LoopSpec) : String :=
 
 def xyz (k : Nat) : String := match k with | 0 => "x" | 1 => "y" | _ => "z"
 
-/-- `get{Outer,Inner}Iterator` of each backend -/
+/-- `get{Outer,Inner}Iterator` of each backend, from the table regenerated out of cuda.cpp, opencl.cpp,
+    metal.cpp, dpcpp.cpp (translate/gen_loops.py) -/
 def magicName (mode : String) (outer : Bool) (k : Nat) : String :=
-  match mode with
-  | "opencl" => (if outer then "get_group_id(" else "get_local_id(") ++ toString k ++ ")"
-  | "metal" => (if outer then "_occa_group_position." else "_occa_thread_position.") ++ xyz k
-  | "dpcpp" => (if outer then "item_.get_group(" else "item_.get_local_id(") ++ toString (2 - k) ++ ")"
-  | _ => (if outer then "blockIdx." else "threadIdx.") ++ xyz k
+  match Gen.magicTable.find? (fun r => r.1 == mode && r.2.1 == outer) with
+  | some (_, _, pre, suf, kind) =>
+    pre ++ (if kind == "xyz" then xyz k else if kind == "rev" then toString (2 - k) else toString k) ++ suf
+  | none => "?"
 
 def joinLines (ls : List String) : String :=
   if ls.isEmpty then "-" else " ;; ".intercalate ls
